@@ -75,7 +75,19 @@ var globHostile = []string{"*\\", "h*\\", "**\\", "?*\\", "\\", "k\\", "[", "[a-
 var common5 = []string{"", "0", "-1", "a", "9223372036854775807"}
 
 // keys of every type present in the preset keyspace
-var presetKeys = []string{"nokey", "ks", "kl", "kset", "kh", "kz", "kx"}
+var presetKeys = []string{"nokey", "ks", "kl", "kset", "kh", "kz", "kx", "kxe"}
+
+// typed follow-up probes (a write, then a read) for the preset keys: a command may leave a value unusable without
+// holding any stripe (a lock inside the value, a broken link), which only the next command on that value meets
+var typedProbes = map[string][][]string{
+	"ks":   {{"APPEND", "ks", "1"}, {"GET", "ks"}},
+	"kl":   {{"RPUSH", "kl", "p"}, {"LRANGE", "kl", "0", "-1"}, {"LPOP", "kl"}},
+	"kset": {{"SADD", "kset", "p"}, {"SMEMBERS", "kset"}},
+	"kh":   {{"HSET", "kh", "p", "1"}, {"HGETALL", "kh"}},
+	"kz":   {{"ZADD", "kz", "3", "p"}, {"ZRANGE", "kz", "0", "-1"}},
+	"kx":   {{"XADD", "kx", "*", "p", "1"}, {"XRANGE", "kx", "-", "+"}},
+	"kxe":  {{"XADD", "kxe", "*", "p", "1"}, {"XRANGE", "kxe", "-", "+"}},
+}
 
 var preset = [][]string{
 	{"SET", "ks", "10"},
@@ -84,6 +96,7 @@ var preset = [][]string{
 	{"HSET", "kh", "f", "1", "g", "x"},
 	{"ZADD", "kz", "1", "a", "1", "b", "2", "c"},
 	{"XADD", "kx", "5-1", "f", "v"},
+	{"XADD", "kxe", "MAXLEN", "0", "5-1", "f", "v"}, // a stream that exists and holds nothing
 }
 
 func skip(name string) bool {
@@ -235,11 +248,22 @@ func worker(o *common.Opts) {
 			var res inproc.Result
 			done := make(chan struct{})
 			began := time.Now()
+			probePanic := ""
+			stage := "the command"
 			go func() {
 				if name == "subscribe" {
 					res = in.Exec(cmd, newPipeConn())
 				} else {
 					res = in.Exec(cmd, nil)
+				}
+				// the next commands on the same value (under the same watchdog)
+				if res.Panic == "" && len(argv) > 1 {
+					stage = "a follow-up command on the same key"
+					for _, pr := range typedProbes[argv[1]] {
+						if r := in.Exec(respc.Cmd(pr...), nil); r.Panic != "" && probePanic == "" {
+							probePanic = strings.Join(pr, " ") + ": " + r.Panic
+						}
+					}
 				}
 				close(done)
 			}()
@@ -255,7 +279,7 @@ func worker(o *common.Opts) {
 						stack = inproc.TopFrames(g, 8)
 					}
 				}
-				detail := "command did not return within 30s; its goroutine:\n" + stack
+				detail := stage + " did not return within 30s; its goroutine:\n" + stack
 				if dead {
 					detail = "(preset keys dead but still stored) " + detail
 				}
@@ -297,6 +321,13 @@ func worker(o *common.Opts) {
 				if !seen[sig] {
 					seen[sig] = true
 					out.Wits = append(out.Wits, witness{Kind: "wedge", Argv: seqrun.QuoteFull(cmd), Detail: fmt.Sprintf("stripes held at quiescence: %v", held), Sig: sig})
+				}
+			}
+			if probePanic != "" {
+				sig := "probe-panic|" + strings.ToUpper(name)
+				if !seen[sig] {
+					seen[sig] = true
+					out.Wits = append(out.Wits, witness{Kind: "panic", Argv: seqrun.QuoteFull(cmd), Detail: "follow-up command on the same key panicked: " + probePanic, Sig: sig})
 				}
 			}
 			// follow-up probes on the same key and on another key must still work
